@@ -5,6 +5,7 @@ VERIF = os.path.dirname(os.path.dirname(os.path.abspath(__file__)))
 REPO = os.environ.get("VERIF_REPO", "/repo")
 COQ = os.path.join(VERIF, "coq")
 WORK = os.path.join(VERIF, "work")
+WORK_LOCKS = None  # private lock directory for overlay runs
 GOENV = dict(GOFLAGS="-mod=mod", GOPROXY="off", GOSUMDB="off", GOTOOLCHAIN="local",
              CGO_ENABLED="0")
 TAGS = "test verif"
@@ -35,7 +36,8 @@ def log(*a):
 class Lock:
     def __init__(self, name):
         os.makedirs(WORK, exist_ok=True)
-        self.path = os.path.join(WORK, ".lock-" + name)
+        d = WORK_LOCKS if (WORK_LOCKS and name in ("coq",)) else WORK
+        self.path = os.path.join(d, ".lock-" + name)
 
     def __enter__(self):
         self.f = open(self.path, "w")
@@ -321,6 +323,15 @@ def main(argv):
     os.makedirs(os.path.join(VERIF, "replays"), exist_ok=True)
     os.makedirs(os.path.join(VERIF, "evidence"), exist_ok=True)
     overlay = os.path.abspath(a.overlay) if a.overlay else None
+    if overlay:
+        # an overlay run must not disturb (or be disturbed by) checks of the real tree: the regenerated coq/Gen/*.v
+        # differ, so it works on a private copy of the coq tree (sources + .vo), under its own locks.
+        global COQ, WORK_LOCKS
+        priv = os.path.join(workdir, "coq")
+        with Lock("coq"):
+            shutil.copytree(COQ, priv, symlinks=True)
+        COQ = priv
+        WORK_LOCKS = workdir
 
     problems = []      # (kind, text) -- broken obligations / correspondence
     notes = []
